@@ -153,6 +153,7 @@ func main() {
 	})
 
 	partA(r, table, modes)
+	ownerAuthCases(r)
 	partB(r, table)
 }
 
@@ -304,6 +305,43 @@ func handlePermissionsCases(r *vh.Run, m model.CommandMode) {
 				for _, u := range pwStrings {
 					for _, o := range pwStrings {
 						onePermissionsCase(r, m, p, rev, u, o, true)
+					}
+				}
+			}
+		}
+	}
+}
+
+// ownerAuthCases: validateOwnerPassword (validateOwnerPasswordAES256 / ...Rev6) on encryption dictionaries
+// crafted (craft.go) for the document owner password docOwner -- including the EMPTY one -- against the model.
+func ownerAuthCases(r *vh.Run) {
+	rnd := func(n int) []byte { b := make([]byte, n); r.Rand.Read(b); return b }
+	n := r.Pick(2, 8)
+	for _, rev := range []int{5, 6} {
+		for _, docOwner := range []string{"", "opw", "p\u00e4ssw\u00f6rd"} {
+			for i := 0; i < n; i++ {
+				fileKey, u := rnd(32), rnd(48)
+				o, oe := ownerEntries(rev, []byte(docOwner), u, fileKey, rnd(8), rnd(8))
+				for _, supplied := range []string{"", "opw", "nope", "p\u00e4ssw\u00f6rd", "x"} {
+					ctx := newCtx(model.LISTINFO, int(int16(-3901)), rev, "", supplied)
+					ctx.E.O, ctx.E.OE, ctx.E.U = o, oe, u
+					matches := supplied == docOwner
+					ok, err := pdfcpu.VerifC26ValidateOwnerPassword(ctx)
+					got := vh.Bool(ok)
+					if err != nil {
+						got = "error:" + err.Error()
+					}
+					r.Case("validateOwnerPassword", []string{vh.Int(int64(rev)), hx(supplied), vh.Bool(matches)}, got)
+					in := map[string]any{"R": rev, "documentOwnerPW": docOwner, "suppliedOwnerPW": supplied}
+					switch {
+					case supplied == "" && ok:
+						fail(r, "owner-authenticated-without-owner-password", in, "validateOwnerPassword = true although no owner password was supplied")
+					case supplied != "" && err == nil && ok != matches:
+						fail(r, "owner-authentication-wrong", in, "validateOwnerPassword = "+got)
+					case ok && matches && !bytes.Equal(ctx.EncKey, fileKey):
+						fail(r, "owner-authentication-wrong", in, "file key not recovered")
+					default:
+						r.OracleOK()
 					}
 				}
 			}
@@ -537,9 +575,15 @@ type encCfg struct {
 type cred struct {
 	label    string
 	upw, opw string
-	ownerOK  bool
-	userOK   bool
+	// ownerOK: the supplied owner string IS the document's owner password (cryptographically; for a crafted
+	// document with an empty owner password the empty string "matches"). Whether that authenticates the owner
+	// is for the implementation / model to decide (revision 5, 6: only if a password was supplied at all).
+	ownerOK bool
+	userOK  bool
 }
+
+// ownerSupplied: the specification's notion -- an owner password was supplied and it is the right one.
+func (c cred) ownerSupplied() bool { return c.ownerOK && c.opw != "" }
 
 func safeRun(o op, b []byte, c *model.Configuration, tmp string) (res string) {
 	defer func() {
@@ -594,6 +638,12 @@ func e2eDoc(r *vh.Run, table map[model.CommandMode][2]int, tmp, doc string, src 
 		}
 		p, rev = ctx.E.P, ctx.E.R
 	}
+	runOps(r, table, tmp, doc, enc, cfg, pwClass, p, rev, opsSel, creds, keep)
+}
+
+// runOps runs the operations on the encrypted file enc (permissions p, revision rev) with the credentials.
+func runOps(r *vh.Run, table map[model.CommandMode][2]int, tmp, doc string, enc []byte, cfg encCfg, pwClass string, p, rev int,
+	opsSel []op, creds []cred, keep func(ci int) bool) {
 	r.Count(fmt.Sprintf("e2e:R=%d", rev))
 	r.Count("e2e:passwords:" + pwClass)
 	for _, o := range opsSel {
@@ -692,6 +742,51 @@ func partB(r *vh.Run, table map[model.CommandMode][2]int) {
 				}
 			}
 		}
+		craftedDocs(r, table, tmp, s, src, all)
+	}
+}
+
+// craftedDocs: AES-256 documents (revision 5 and 6) with a non-empty user password and an EMPTY owner
+// password, all four combinations of the extract / modify bits; the whole operation matrix with user-only,
+// none (= empty owner password only) and user + wrong owner. Control: the same crafting with a non-empty
+// owner password must open with that owner password (validates the crafting itself).
+func craftedDocs(r *vh.Run, table map[model.CommandMode][2]int, tmp, doc string, src []byte, all []op) {
+	cfg := encCfg{"aes-256", true, 256}
+	none := int(model.PermissionsNone)
+	for _, perm := range []int{none, none | 0x10 | 0x200, none | 0x08 | 0x400, none | 0x10 | 0x200 | 0x08 | 0x400} {
+		conf := model.NewDefaultConfiguration()
+		conf.UserPW, conf.OwnerPW = "upw", "opw"
+		conf.EncryptUsingAES, conf.EncryptKeyLength = true, 256
+		conf.Permissions = model.PermissionFlags(perm)
+		var buf bytes.Buffer
+		if err := api.Encrypt(bytes.NewReader(src), &buf, conf); err != nil {
+			panic(fmt.Sprintf("encrypt for crafting: %v", err))
+		}
+		rc := model.NewDefaultConfiguration()
+		rc.OwnerPW = "opw"
+		ctx, err := api.ReadContext(bytes.NewReader(buf.Bytes()), rc)
+		if err != nil || ctx.E.R != 5 || len(ctx.EncKey) != 32 {
+			// cannot obtain the file key (e.g. the owner path itself is broken): reported by e2eDoc already
+			r.Count("e2e:crafting-skipped")
+			continue
+		}
+		e := ctx.E
+		p := e.P
+		for _, rev := range []int{5, 6} {
+			cfgr := cfg
+			cfgr.label = fmt.Sprintf("aes-256-crafted-R%d", rev)
+			// control: non-empty owner password, opened with it
+			if perm == none {
+				ctl := craftAES256(buf.Bytes(), rev, "upw", "own2", e.U, e.UE, e.O, e.OE, ctx.EncKey)
+				runOps(r, table, tmp, doc, ctl, cfgr, "crafted-owner-own2", p, rev, all,
+					[]cred{{"owner-only", "", "own2", true, false}, {"user-only", "upw", "", false, true}, {"old-owner", "", "opw", false, false}},
+					func(int) bool { return true })
+			}
+			crafted := craftAES256(buf.Bytes(), rev, "upw", "", e.U, e.UE, e.O, e.OE, ctx.EncKey)
+			runOps(r, table, tmp, doc, crafted, cfgr, "crafted-empty-owner", p, rev, all,
+				[]cred{{"user-only", "upw", "", true, true}, {"none", "", "", true, false}, {"user+wrong-owner", "upw", "nope", false, true}},
+				func(int) bool { return true })
+		}
 	}
 }
 
@@ -703,12 +798,12 @@ func oracleB(r *vh.Run, table map[model.CommandMode][2]int, doc string, cfg encC
 		fail(r, "panic-in-operation", in, got)
 		return
 	}
-	if cr.ownerOK && got == "denied" {
+	if cr.ownerSupplied() && got == "denied" {
 		fail(r, "owner-password-denied", in, "the owner password was supplied and the operation was refused for permission reasons")
 		ok = false
 	}
 	// "owner-required" / "encrypted-unsupported" are refusals of another kind (observed, not assumed)
-	if !cr.ownerOK && cr.userOK && got != "owner-required" && got != "encrypted-unsupported" {
+	if !cr.ownerSupplied() && cr.userOK && got != "owner-required" && got != "encrypted-unsupported" {
 		row, inTable := table[o.mode]
 		if inTable {
 			needE, needM := row[0] != 0, row[1] != 0
